@@ -38,7 +38,7 @@ RefEntries(l) ==
     {[k |-> "ref", ref |-> "main", s |-> s, tree |-> t, par |-> pr] : s \in MainSigners, t \in {1, 2},
                                                                   pr \in (IF Family \in {"window", "tworec", "apprskip", "apprlate"} THEN {PrevOf(l, "main")} ELSE {0, PrevOf(l, "main")})}
     \cup {[k |-> "ref", ref |-> "feat", s |-> s, tree |-> 1, par |-> PrevOf(l, "feat")] : s \in {"p3", "kU"}}
-PropEntries(l) == IF Family = "core" THEN {[k |-> "prop", ref |-> "main", s |-> s, tree |-> 2, par |-> PrevOf(l, "main")] : s \in {"p1", "kU"}} ELSE {}
+PropEntries(l) == IF Family \in {"core", "long"} THEN {[k |-> "prop", ref |-> "main", s |-> s, tree |-> 2, par |-> PrevOf(l, "main")] : s \in {"p1", "kU"}} ELSE {}
 AnnEntries(l) == LET R == {i \in 1..Len(l) : l[i].k = "ref"} IN
                  {[k |-> "ann", tg |-> {i}, s |-> "p1"] : i \in R}
                  \cup (IF Family \in {"recovery", "tworec"} THEN {[k |-> "ann", tg |-> {i, j}, s |-> "p1"] : i, j \in R} ELSE {})
@@ -70,7 +70,7 @@ AttEntries(l) ==
               f \in {PrevOf(l, "main")}, t \in {1, 2}, by \in {{"p2"}, {"p2", "p3"}}}
          \cup {[k |-> "att", apps |-> {}, crs |-> {}]}
 OtherEntries(l) == {[k |-> "pol", v |-> v, cv |-> c, sv |-> x] : v \in PolIds, c \in (IF Family = "chain" THEN BOOLEAN ELSE {TRUE}),
-                                                                  x \in (IF Family = "chain" THEN BOOLEAN ELSE {TRUE})} \cup (IF Family = "core" THEN {[k |-> "stg"]} ELSE {})
+                                                                  x \in (IF Family = "chain" THEN BOOLEAN ELSE {TRUE})} \cup (IF Family \in {"core", "long"} THEN {[k |-> "stg"]} ELSE {})
 
 \* shape-guided families: the kind of entry at each position is prescribed, which makes long histories around the
 \* recovery loop affordable ("window": policy change between a revoked violation and its fix; "tworec": two recoveries)
@@ -142,6 +142,9 @@ PolJson == [v \in PolIds \cup {Strip[x] : x \in PolIds} |-> [rules |-> [r \in Re
                               bfp |-> SetToSeq(Pol[v].bfp), all |-> SetToSeq(Pol[v].all), apps |-> Pol[v].apps]]
 Emit == IF Len(log) <= 1 /\ (log = <<>> \/ log[1].k = "pol")
         THEN PrintT(ToJson([t |-> "POL", pol |-> PolJson, strip |-> [v \in PolIds |-> Strip[v]]]))
+        ELSE IF Family = "long"          \* long random histories (simulation mode): only complete ones are replayed
+        THEN (IF Len(log) = MaxLen /\ (\E r \in Refs : HasEntries(log, r))
+              THEN PrintT(ToJson([t |-> "SCN", fam |-> Family, log |-> [i \in DOMAIN log |-> Norm(log[i])]])) ELSE TRUE)
         ELSE IF Len(log) >= 2 /\ (\E r \in Refs : HasEntries(log, r))
            /\ ((Interesting /\ Weight % 7 = EmitRes % 7) \/ Weight % EmitMod = EmitRes \/ WindowCase \/ TwoRecoveries
                \/ (Family \in {"apprskip", "apprlate"} /\ Len(log) = Len(Shape) + 1))
